@@ -28,7 +28,7 @@ Proof.
   destruct found as [[na r] |]; [| apply OutsExt_same; reflexivity].
   destruct (N.eqb (snd na) src) eqn:Esrc; cbn [negb]; [| apply OutsExt_same; reflexivity].
   apply N.eqb_eq in Esrc.
-  destruct (rc_hs_sent r).
+  destruct (rc_hs_sent r || c_ed (rc_contact r)).
   { eapply OutsExt_weaken; [intros o Ho; left; exact Ho |].
     set (s2 := if fix_d6 c then _ else _).
     assert (O2 : outs s2 = outs s) by (unfold s2; destruct (fix_d6 c); reflexivity).
@@ -41,7 +41,7 @@ Proof.
       destruct (NS_new_session c s5 (c_naddr ct)
         {| s_enc := mk_key eph (c_id ct) cd (cfg_local c) (c_id ct) false;
            s_dec := mk_key eph (c_id ct) cd (cfg_local c) (c_id ct) true;
-           s_old := None; s_await := None; s_counter := 0 |} (Some (cn, rr)) now) as [_ [_ [[l [El Fl]] _]]]
+           s_old := None; s_await := None; s_counter := 0; s_used := 0 |} (Some (cn, rr)) now) as [_ [_ [[l [El Fl]] _]]]
     end.
     eexists. split; [rewrite El; cbn [emit send outs with_hs]; rewrite <- !app_assoc; reflexivity |].
     cbn [app]. constructor; [left; exact I |]. constructor.
@@ -56,7 +56,7 @@ Proof.
     destruct (NS_new_session c s6 (c_naddr ct)
         {| s_enc := mk_key eph (c_id ct) cd (cfg_local c) (c_id ct) false;
            s_dec := mk_key eph (c_id ct) cd (cfg_local c) (c_id ct) true;
-           s_old := None; s_await := Some irid; s_counter := 0 |} (Some (cn, rr)) now) as [_ [_ [[l [El Fl]] _]]].
+           s_old := None; s_await := Some irid; s_counter := 0; s_used := 0 |} (Some (cn, rr)) now) as [_ [_ [[l [El Fl]] _]]].
     eexists. split; [rewrite El, E6; cbn [emit send outs with_hs]; rewrite <- !app_assoc; reflexivity |].
     cbn [app]. constructor; [left; exact I |].
     apply Forall_app. split; (eapply Forall_impl; [| eassumption]); intros o Ho; left; exact Ho.
@@ -70,7 +70,7 @@ Theorem whoareyou_attributes_contact c h from n idn seq cd now d h' out o :
 Proof.
   intros Hs Hin Ha. rewrite step_PWho in Hs. injection Hs as Eh Eo. rewrite <- Eo in Hin.
   destruct (outs_after _ _ _ o (tick_outs c h now d)
-              (handle_challenge_outs c (tick c h now d) from n seq cd now) Hin) as [Hq | [Hq | Hq]].
+              (handle_challenge_outs (with_clock c now) (tick c h now d) from n seq cd now) Hin) as [Hq | [Hq | Hq]].
   - exfalso. exact (quiet_not_attributing _ Hq Ha).
   - exfalso. exact (quiet_not_attributing _ Hq Ha).
   - exact Hq.
@@ -96,5 +96,5 @@ Theorem local_events_attribute_nothing c h e now d o :
   local_event e = true -> In o (snd (step c h e now d)) -> quiet_out o.
 Proof.
   intros He. rewrite step_eq. cbn [snd]. intros Hin.
-  destruct (outs_after _ _ _ o (tick_outs c h now d) (dispatch_local_outs c (tick c h now d) e now He) Hin); assumption.
+  destruct (outs_after _ _ _ o (tick_outs c h now d) (dispatch_local_outs (with_clock c now) (tick c h now d) e now He) Hin); assumption.
 Qed.
